@@ -14,6 +14,21 @@ theorem snapshotIteration_true : snapshotIteration = true := by decide
 theorem closeOnLast_true : closeOnLast = true := by decide
 theorem sendNonBlocking_true : sendNonBlocking = true := by decide
 theorem chanCap_pos : 0 < chanCap := by decide
+theorem waitsForPrevious_true : waitsForPrevious = true := by decide
+
+theorem earlierDone_iff (st : State) (k : Nat) :
+    earlierDone st k = true ↔ ∀ k', k' < k → (st.sub k').subj = (st.sub k).subj → (st.sub k').attached = false := by
+  simp only [earlierDone, List.all_eq_true, List.mem_range, Bool.or_eq_true, bne_iff_ne, ne_eq,
+    Bool.not_eq_true']
+  constructor
+  · intro h k' hk' hs
+    rcases h k' hk' with g | g
+    · exact absurd hs g
+    · exact g
+  · intro h k' hk'
+    by_cases hs : (st.sub k').subj = (st.sub k).subj
+    · right; exact h k' hk' hs
+    · left; exact hs
 
 /-! ### `upd` -/
 
@@ -70,14 +85,15 @@ theorem send_inv {st st' : State} (e : send st = some st') :
 
 theorem take_inv {st st' : State} {k : Nat} (e : take st k = some st') :
     ∃ i rest, k < st.nsubs ∧ (st.sub k).attached = true ∧ (st.sub k).cur = none ∧ (st.sub k).chan = i :: rest ∧
+      (∀ k', k' < k → (st.sub k').subj = (st.sub k).subj → (st.sub k').attached = false) ∧
       st' = st.upd k fun b => { b with chan := rest, cur := some i, snapped := false, tovisit := [], pending := none } := by
-  simp only [Bus.take] at e
+  simp only [Bus.take, waitsForPrevious_true, Bool.true_eq_false, false_or] at e
   split at e
   · rename_i h
     split at e
     · rename_i i rest hc
       cases e
-      exact ⟨i, rest, h.1, h.2.1, h.2.2, hc, rfl⟩
+      exact ⟨i, rest, h.1, h.2.1, h.2.2.1, hc, (earlierDone_iff st k).mp h.2.2.2, rfl⟩
     · cases e
   · cases e
 
@@ -220,6 +236,7 @@ inductive Prim : State → State → Prop where
       Prim st { st with sending := rest, dropped := true }
   | take (st : State) (k i : Nat) (rest : List Nat) : k < st.nsubs → (st.sub k).attached = true →
       (st.sub k).cur = none → (st.sub k).chan = i :: rest →
+      (∀ k', k' < k → (st.sub k').subj = (st.sub k).subj → (st.sub k').attached = false) →
       Prim st (st.upd k fun b => { b with chan := rest, cur := some i, snapped := false, tovisit := [], pending := none })
   | snap (st : State) (k i : Nat) : k < st.nsubs → (st.sub k).cur = some i → (st.sub k).snapped = false →
       Prim st (st.upd k fun b => { b with snapped := true, tovisit := b.listeners })
@@ -258,8 +275,8 @@ theorem step_prim {st st' : State} {a : Act} (e : step st a = some st') : Prim s
     · exact .sendOk st k rest hs hlt
     · exact .sendDrop st k rest hs
   | take k =>
-    obtain ⟨i, rest, h1, h2, h3, h4, rfl⟩ := take_inv e
-    exact .take st k i rest h1 h2 h3 h4
+    obtain ⟨i, rest, h1, h2, h3, h4, h5, rfl⟩ := take_inv e
+    exact .take st k i rest h1 h2 h3 h4 h5
   | snap k =>
     obtain ⟨i, h1, h2, h3, rfl⟩ := snap_inv e
     exact .snap st k i h1 h2 h3
@@ -454,7 +471,7 @@ theorem WF.prim {st st' : State} (h : WF st) (p : Prim st st') : WF st' := by
     · intro _; exact h7 (by simp [hs])
     · rw [hs] at h8; exact (List.nodup_cons.mp h8).2
     · intro k' hk'; exact h9 k' (by simp [hs, hk'])
-  | take k i rest hk ha hc hch =>
+  | take k i rest hk ha hc hch hwt =>
     have := h.subok k hk
     refine h.upd hk rfl rfl (fun x => x) ⟨this.1, this.2, this.3, ?_, ?_, ?_, ?_, ?_⟩ <;> simp
   | snap k i hk hc hs =>
@@ -700,7 +717,7 @@ theorem TM.prim {st st' : State} (h : TM st) (p : Prim st st') : TM st' := by
   | dispatch p hs hp => exact h.of_eq rfl rfl rfl rfl rfl
   | sendOk k rest hs hlt => exact h.of_eq rfl rfl rfl rfl rfl
   | sendDrop k rest hs => exact h.of_eq rfl rfl rfl rfl rfl
-  | take k i rest hk ha hc hch => exact h.of_eq rfl rfl rfl rfl rfl
+  | take k i rest hk ha hc hch hwt => exact h.of_eq rfl rfl rfl rfl rfl
   | snap k i hk hc hs => exact h.of_eq rfl rfl rfl rfl rfl
   | pick k l hk hs hp hl => exact h.of_eq rfl rfl rfl rfl rfl
   | call k l i hk hp hc =>
@@ -924,7 +941,7 @@ theorem IX.prim {st st' : State} (w : WF st) (h : IX st) (p : Prim st st') : IX 
       rcases hx with hx | rfl
       · exact b x hx
       · have := (h.recvs r hr).2.2.1 (hrk ▸ hkmem); omega
-  | take k i rest hk ha hc hch =>
+  | take k i rest hk ha hc hch hwt =>
     have hsk := h.subs k hk
     refine h.upd rfl rfl rfl rfl ?_ ?_
     · intro _
@@ -1150,15 +1167,140 @@ end SigModel.Bus
 namespace SigModel.Bus
 open SigModel.Generated.Bus
 
+/-! ### a new subscriber waits for the closed one -/
+
+structure WO (st : State) : Prop where
+  det_idle : ∀ k, k < st.nsubs → (st.sub k).attached = false → (st.sub k).cur = none
+  wait : ∀ k1 k2, k1 < k2 → k2 < st.nsubs → (st.sub k1).subj = (st.sub k2).subj →
+    (st.sub k1).attached = true → (st.sub k2).cur = none ∧ ∀ r, r ∈ st.recvs → r.k ≠ k2
+
+theorem WO.init : WO State.init := by
+  constructor <;> simp [State.init]
+
+theorem WO.of_eq {st st' : State} (h : WO st) (e1 : st'.nsubs = st.nsubs) (e2 : st'.sub = st.sub)
+    (e3 : st'.recvs = st.recvs) : WO st' := by
+  obtain ⟨h1, h2⟩ := h
+  constructor
+  all_goals simp only [e1, e2, e3]
+  all_goals assumption
+
+/-- a change local to subscriber `k` that keeps the subject -/
+theorem WO.upd' {st : State} (h : WO st) {k : Nat} {f : Sub → Sub}
+    (hsubj : (f (st.sub k)).subj = (st.sub k).subj)
+    (hatt : (f (st.sub k)).attached = true → (st.sub k).attached = true)
+    (hidle : k < st.nsubs → (f (st.sub k)).attached = false → (f (st.sub k)).cur = none)
+    (hcur : (∃ k1, k1 < k ∧ (st.sub k1).subj = (st.sub k).subj ∧ (st.sub k1).attached = true) →
+      (st.sub k).cur = none → (f (st.sub k)).cur = none) : WO (st.upd k f) := by
+  obtain ⟨h1, h2⟩ := h
+  have sj : ∀ k', ((st.upd k f).sub k').subj = (st.sub k').subj := by
+    intro k'; simp only [upd_sub]; split
+    · rename_i e; subst e; exact hsubj
+    · rfl
+  constructor
+  · intro k' hk' ha
+    simp only [upd_sub, upd_nsubs] at hk' ha ⊢
+    split
+    · rename_i e; subst e; rw [if_pos rfl] at ha; exact hidle hk' ha
+    · rename_i e; rw [if_neg e] at ha; exact h1 k' hk' ha
+  · intro k1 k2 h12 hk2 hs ha
+    rw [sj k1, sj k2] at hs
+    simp only [upd_sub, upd_nsubs, upd_recvs] at hk2 ha ⊢
+    have ha1 : (st.sub k1).attached = true := by
+      split at ha
+      · rename_i e; subst e; exact hatt ha
+      · exact ha
+    obtain ⟨a, b⟩ := h2 k1 k2 h12 hk2 hs ha1
+    refine ⟨?_, b⟩
+    split
+    · rename_i e; subst e
+      exact hcur ⟨k1, h12, hs, ha1⟩ a
+    · exact a
+
+/-- a change local to subscriber `k` that keeps subject, `attached` and `cur` -/
+theorem WO.upd {st : State} (h : WO st) {k : Nat} {f : Sub → Sub}
+    (hsubj : (f (st.sub k)).subj = (st.sub k).subj) (hatt : (f (st.sub k)).attached = (st.sub k).attached)
+    (hcur : (f (st.sub k)).cur = (st.sub k).cur) : WO (st.upd k f) :=
+  h.upd' hsubj (fun g => hatt ▸ g) (fun hk g => by rw [hcur]; exact h.det_idle k hk (hatt ▸ g))
+    (fun _ g => by rw [hcur]; exact g)
+
+theorem WO.prim {st st' : State} (x : IX st) (h : WO st) (p : Prim st st') : WO st' := by
+  cases p with
+  | publish s => exact h.of_eq rfl rfl rfl
+  | dispatch p hs hp => exact h.of_eq rfl rfl rfl
+  | sendDrop k rest hs => exact h.of_eq rfl rfl rfl
+  | sendOk k rest hs hlt =>
+    exact WO.upd (st := ({ st with sending := rest } : State)) (h.of_eq rfl rfl rfl) rfl rfl rfl
+  | take k i rest hk ha hc hch hwt =>
+    refine h.upd' rfl (fun g => g) (fun _ g => ?_) (fun g _ => ?_)
+    · simp only at g; rw [ha] at g; cases g
+    · obtain ⟨k1, a, b, c⟩ := g
+      have := hwt k1 a b
+      rw [this] at c; cases c
+  | snap k i hk hc hs => exact h.upd rfl rfl rfl
+  | pick k l hk hs hp hl => exact h.upd rfl rfl rfl
+  | call k l i hk hp hc =>
+    have h' : WO (st.upd k fun b => { b with pending := none }) := h.upd rfl rfl rfl
+    obtain ⟨h1, h2⟩ := h'
+    refine ⟨h1, ?_⟩
+    intro k1 k2 h12 hk2 hs hatt
+    obtain ⟨a, b⟩ := h2 k1 k2 h12 hk2 hs hatt
+    refine ⟨a, ?_⟩
+    intro r hr
+    simp only [upd_recvs, List.mem_append, List.mem_singleton] at hr
+    rcases hr with hr | rfl
+    · exact b r hr
+    · simp only
+      intro e
+      subst e
+      simp only [upd_sub, if_true] at a
+      rw [hc] at a; cases a
+  | finish k i hk hc hs ht hp =>
+    exact h.upd' rfl (fun g => g) (fun _ _ => rfl) (fun _ _ => rfl)
+  | exit k hk ha hcl hc =>
+    exact h.upd' rfl (fun g => by cases g) (fun _ _ => hc) (fun _ g => g)
+  | regOld l s k ha =>
+    refine WO.of_eq (st := regOld st l k) ?_ rfl rfl rfl
+    unfold regOld
+    refine h.upd ?_ ?_ ?_ <;> (split <;> rfl)
+  | regNew l s ha =>
+    refine WO.of_eq (st := regNew st l s) ?_ rfl rfl rfl
+    obtain ⟨h1, h2⟩ := h
+    constructor
+    · intro k' hk' hatt
+      simp only [regNew] at hk' hatt ⊢
+      by_cases e : k' = st.nsubs
+      · rw [if_pos e]
+      · rw [if_neg e] at hatt ⊢; exact h1 k' (by omega) hatt
+    · intro k1 k2 h12 hk2 hs hatt
+      simp only [regNew] at hk2 hs hatt ⊢
+      have e1 : k1 ≠ st.nsubs := by omega
+      rw [if_neg e1] at hs hatt
+      by_cases e2 : k2 = st.nsubs
+      · rw [if_pos e2]
+        refine ⟨rfl, ?_⟩
+        intro r hr
+        have := (x.recvs r hr).1
+        omega
+      · rw [if_neg e2] at hs ⊢
+        exact h2 k1 k2 h12 (by omega) hs hatt
+  | unregNone l s ha => exact h.of_eq rfl rfl rfl
+  | unregLast l s k ha he =>
+    refine WO.of_eq (st := st.upd k fun b => { b with listeners := [], closed := true, closedAt := st.disp })
+      ?_ rfl rfl rfl
+    exact h.upd rfl rfl rfl
+  | unregSome l s k ha he =>
+    refine WO.of_eq (st := unregSome st l k) ?_ rfl rfl rfl
+    exact h.upd rfl rfl rfl
+
 /-! ### no duplicates, order -/
 
-/-- The three ways an earlier delivery `r` relates to the message `i` a subscriber `k` is about to hand to
-listener `l` (same subject): through `k` itself it is older; through an earlier subscriber it is older;
-a later subscriber exists only when `k` is closed. -/
-theorem recv_vs_pending {st : State} (w : WF st) (h : IX st) {k l i : Nat} (hk : k < st.nsubs)
+/-- An earlier delivery `r` to listener `l` on the subject of the message `i` that subscriber `k` is about
+to hand to `l` is older than `i`: through `k` itself by the order of its channel; through an earlier
+subscriber because that one was closed before `k` was made; and a later subscriber has not delivered
+anything while `k` is still running. -/
+theorem recv_lt_pending {st : State} (h : IX st) (o : WO st) {k l i : Nat} (hk : k < st.nsubs)
     (hp : (st.sub k).pending = some l) (hc : (st.sub k).cur = some i) {r : RecvEv} (hr : r ∈ st.recvs)
-    (hl : r.l = l) (hs : st.subjOf r.i = st.subjOf i) :
-    r.i < i ∨ ((st.sub k).closed = true ∧ i < r.i) := by
+    (hl : r.l = l) (hs : st.subjOf r.i = st.subjOf i) : r.i < i := by
   obtain ⟨a, b, c, d, e⟩ := h.recvs r hr
   have hsk := h.subs k hk
   obtain ⟨c1, c2, c3, c4, c5⟩ := hsk.cur_bd i hc
@@ -1169,26 +1311,27 @@ theorem recv_vs_pending {st : State} (w : WF st) (h : IX st) {k l i : Nat} (hk :
   rcases Nat.lt_trichotomy r.k k with hlt | heq | hgt
   · have := h.born_order r.k k hlt hk hsubj
     have := e.closed this.1
-    left; omega
+    omega
   · rw [heq] at e
     have := e.le_cur i hc
-    left
     rcases Nat.lt_or_ge r.i i with g | g
     · exact g
     · have heq : r.i = i := by omega
       have := (this.2 heq).2.2
       rw [hl] at this
       exact absurd hp this
-  · have := h.born_order k r.k hgt a hsubj.symm
-    have h2 := hsk.closed_pending this.1 l i hp hc
-    have := e.born_le
-    right; exact ⟨‹_ ∧ _›.1, by omega⟩
+  · exfalso
+    have hatt : (st.sub k).attached = true := by
+      cases hatt : (st.sub k).attached with
+      | true => rfl
+      | false => have := o.det_idle k hk hatt; rw [hc] at this; cases this
+    exact (o.wait k r.k hgt a hsubj.symm hatt).2 r hr rfl
 
 def ND (st : State) : Prop := st.recvs.Pairwise fun r r' => ¬(r.l = r'.l ∧ r.i = r'.i)
 
 theorem ND.init : ND State.init := by simp [ND, State.init]
 
-theorem ND.prim {st st' : State} (w : WF st) (h : IX st) (n : ND st) (p : Prim st st') : ND st' := by
+theorem ND.prim {st st' : State} (h : IX st) (o : WO st) (n : ND st) (p : Prim st st') : ND st' := by
   cases p with
   | call k l i hk hp hc =>
     unfold ND at n ⊢
@@ -1200,21 +1343,20 @@ theorem ND.prim {st st' : State} (w : WF st) (h : IX st) (n : ND st) (p : Prim s
     subst hr'
     rintro ⟨e1, e2⟩
     simp only at e1 e2
-    have := recv_vs_pending w h hk hp hc hr e1 (by rw [e2])
+    have := recv_lt_pending h o hk hp hc hr e1 (by rw [e2])
     omega
   | _ => exact n
 
+/-- per listener and subject, deliveries are in publication order -/
 def OD (st : State) : Prop :=
-  st.stale = 0 → st.recvs.Pairwise fun r r' => r.l = r'.l → st.subjOf r.i = st.subjOf r'.i → r.i < r'.i
+  st.recvs.Pairwise fun r r' => r.l = r'.l → st.subjOf r.i = st.subjOf r'.i → r.i < r'.i
 
 theorem OD.init : OD State.init := by simp [OD, State.init]
 
-theorem OD.prim {st st' : State} (w : WF st) (h : IX st) (o : OD st) (p : Prim st st') : OD st' := by
+theorem OD.prim {st st' : State} (w : WF st) (h : IX st) (wo : WO st) (o : OD st) (p : Prim st st') : OD st' := by
   cases p with
   | publish s =>
-    intro hs
-    have := o hs
-    refine List.Pairwise.imp_of_mem ?_ this
+    refine List.Pairwise.imp_of_mem ?_ o
     intro r r' hr hr' hrel e1 e2
     have b := (h.recvs r hr).2.1
     have b' := (h.recvs r' hr').2.1
@@ -1223,30 +1365,19 @@ theorem OD.prim {st st' : State} (w : WF st) (h : IX st) (o : OD st) (p : Prim s
     rw [subjOf_append_lt st _ _ (by omega), subjOf_append_lt st _ _ (by omega)] at e2
     exact hrel e1 e2
   | call k l i hk hp hc =>
-    intro hs
-    simp only [upd_stale] at hs
-    have hmem : l ∈ (st.sub k).listeners := by
-      by_cases hm : l ∈ (st.sub k).listeners
-      · exact hm
-      · simp [hm] at hs
-    have hs0 : st.stale = 0 := by simpa [hmem] using hs
-    have := o hs0
+    unfold OD at o ⊢
     simp only [upd_recvs]
     rw [List.pairwise_append]
-    refine ⟨this, by simp, ?_⟩
+    refine ⟨o, by simp, ?_⟩
     intro r hr r' hr'
     simp only [List.mem_singleton] at hr'
     subst hr'
     intro e1 e2
-    simp only at e1 e2 ⊢
-    rcases recv_vs_pending w h hk hp hc hr e1 e2 with g | ⟨g, _⟩
-    · exact g
-    · have := (w.subok k hk).closed_ls g
-      rw [this] at hmem; cases hmem
+    exact recv_lt_pending h wo hk hp hc hr e1 e2
   | dispatch p hs hp => exact o
   | sendOk k rest hs hlt => exact o
   | sendDrop k rest hs => exact o
-  | take k i rest hk ha hc hch => exact o
+  | take k i rest hk ha hc hch hwt => exact o
   | snap k i hk hc hs => exact o
   | pick k l hk hs hp hl => exact o
   | finish k i hk hc hs ht hp => exact o
@@ -1256,7 +1387,6 @@ theorem OD.prim {st st' : State} (w : WF st) (h : IX st) (o : OD st) (p : Prim s
   | unregNone l s ha => exact o
   | unregLast l s k ha he => exact o
   | unregSome l s k ha he => exact o
-
 
 end SigModel.Bus
 
@@ -1391,7 +1521,7 @@ theorem RG.prim {st st' : State} (w : WF st) (t : TM st) (x : IX st) (h : RG st)
   | sendOk k rest hs hlt =>
     have h' : RG ({ st with sending := rest } : State) := h.of_eq rfl rfl rfl rfl rfl rfl
     exact h'.upd rfl (fun l hl => hl) (fun l i hl hi => ⟨hl, hi⟩)
-  | take k i rest hk ha hc hch =>
+  | take k i rest hk ha hc hch hwt =>
     exact h.upd rfl (fun l hl => hl) (fun l i hl hi => by cases hl)
   | snap k i hk hc hs =>
     exact h.upd rfl (fun l hl => hl) (fun l i hl hi => ⟨hl, hi⟩)
@@ -1687,7 +1817,7 @@ theorem CV.prim {st st' : State} (w : WF st) (t : TM st) (x : IX st) (h : CV st)
         · rename_i e; subst e; exact a
         · exact a
       · right; right; right; right; exact a
-  | take k0 i0 rest hk0 ha0 hc0 hch =>
+  | take k0 i0 rest hk0 ha0 hc0 hch hwt =>
     refine h.internal w rfl rfl rfl rfl (fun g => g) ?_ ?_
     · intro k; simp only [upd_sub]; split <;> rfl
     · intro k l i p _ hact hl hp hps hw
@@ -1952,190 +2082,16 @@ structure Inv (st : State) : Prop where
   wf : WF st
   tm : TM st
   ix : IX st
+  wo : WO st
   nd : ND st
   od : OD st
   rg : RG st
   cv : CV st
 
 theorem Reach.inv {st : State} (h : Reach st) : Inv st := by
-  refine Reach.induct (P := Inv) ⟨WF.init, TM.init, IX.init, ND.init, OD.init, RG.init, CV.init⟩ ?_ st h
+  refine Reach.induct (P := Inv) ⟨WF.init, TM.init, IX.init, WO.init, ND.init, OD.init, RG.init, CV.init⟩ ?_ st h
   intro st st' _ i p
-  exact ⟨i.wf.prim p, i.tm.prim p, i.ix.prim i.wf p, i.nd.prim i.wf i.ix p, i.od.prim i.wf i.ix p,
-    i.rg.prim i.wf i.tm i.ix p, i.cv.prim i.wf i.tm i.ix p⟩
-
-/-! ### prompt executions are executions without stale callbacks -/
-
-theorem visit_steps {st st' : State} {k l : Nat} (e : visit st k l = some st') :
-    ∃ st1, step st (.pick k l) = some st1 ∧
-      (st' = st1 ∨ (step st1 (.call k) = some st' ∧ st'.stale = st.stale)) ∧
-      (st'.sub k).pending = none ∧ (∀ k', k' ≠ k → (st'.sub k').pending = (st.sub k').pending) := by
-  unfold visit at e
-  cases hp : pick st k l with
-  | none => rw [hp] at e; cases e
-  | some st1 =>
-    rw [hp] at e
-    simp only at e
-    obtain ⟨hk, hs, hpn, hl, rfl⟩ := pick_inv hp
-    refine ⟨_, hp, ?_⟩
-    split at e
-    · rename_i hsome
-      obtain ⟨l', i, _, h2, h3, rfl⟩ := call_inv e
-      simp only [upd_sub, if_true] at h2 hsome
-      have hmem : l ∈ (st.sub k).listeners := by
-        by_cases hm : l ∈ (st.sub k).listeners
-        · exact hm
-        · simp [hm] at h2
-      simp only [hmem, if_true, Option.some.injEq] at h2
-      subst h2
-      refine ⟨Or.inr ⟨e, ?_⟩, ?_, ?_⟩
-      · simp [hmem]
-      · simp
-      · intro k' hne; simp [hne]
-    · rename_i hnone
-      cases e
-      refine ⟨Or.inl rfl, ?_, ?_⟩
-      · simpa using hnone
-      · intro k' hne; simp [hne]
-
-
-theorem step_other_pending {st st' : State} {a : Act} (e : step st a = some st')
-    (hp : ∀ k l, a ≠ .pick k l) (hc : ∀ k, a ≠ .call k) (h : ∀ k, (st.sub k).pending = none) :
-    (∀ k, (st'.sub k).pending = none) ∧ st'.stale = st.stale := by
-  have key := step_prim e
-  cases a with
-  | pick k l => exact absurd rfl (hp k l)
-  | call k => exact absurd rfl (hc k)
-  | publish s => simp only [step, Option.some.injEq] at e; subst e; exact ⟨h, rfl⟩
-  | dispatch => obtain ⟨p, _, _, rfl⟩ := dispatch_inv e; exact ⟨h, rfl⟩
-  | send =>
-    obtain ⟨k, rest, _, g⟩ := send_inv e
-    rcases g with ⟨_, rfl⟩ | ⟨_, rfl⟩
-    · refine ⟨fun k' => ?_, rfl⟩
-      simp only [upd_sub]; split
-      · exact h k'
-      · exact h k'
-    · exact ⟨h, rfl⟩
-  | take k =>
-    obtain ⟨i, rest, _, _, _, _, rfl⟩ := take_inv e
-    refine ⟨fun k' => ?_, rfl⟩
-    simp only [upd_sub]; split
-    · rfl
-    · exact h k'
-  | snap k =>
-    obtain ⟨i, _, _, _, rfl⟩ := snap_inv e
-    refine ⟨fun k' => ?_, rfl⟩
-    simp only [upd_sub]; split
-    · exact h k'
-    · exact h k'
-  | finish k =>
-    obtain ⟨i, _, _, _, _, _, rfl⟩ := finish_inv e
-    refine ⟨fun k' => ?_, rfl⟩
-    simp only [upd_sub]; split
-    · exact h k'
-    · exact h k'
-  | exit k =>
-    obtain ⟨_, _, _, _, rfl⟩ := exit_inv e
-    refine ⟨fun k' => ?_, rfl⟩
-    simp only [upd_sub]; split
-    · exact h k'
-    · exact h k'
-  | register l s =>
-    simp only [step, Option.some.injEq] at e; subst e
-    rw [register_eq]
-    refine ⟨fun k' => ?_, ?_⟩
-    · cases ha : st.active s with
-      | none =>
-        simp only [stampReg, regNew]
-        split
-        · rfl
-        · exact h k'
-      | some k =>
-        simp only [stampReg, regOld, upd_sub]
-        split
-        · split
-          · exact h k'
-          · exact h k'
-        · exact h k'
-    · cases ha : st.active s <;> rfl
-  | unregister l s =>
-    simp only [step, Option.some.injEq] at e; subst e
-    rw [unregister_eq]
-    refine ⟨fun k' => ?_, ?_⟩
-    · cases ha : st.active s with
-      | none => exact h k'
-      | some k =>
-        simp only [stampUnreg]
-        split
-        · simp only [unregLast, upd_sub]; split
-          · exact h k'
-          · exact h k'
-        · simp only [unregSome, upd_sub]; split
-          · exact h k'
-          · exact h k'
-    · cases ha : st.active s with
-      | none => rfl
-      | some k => simp only [stampUnreg]; split <;> rfl
-
-/-- A prompt execution is an execution; no callback is pending between its steps and none was stale. -/
-theorem ReachP.reach {st : State} (h : ReachP st) :
-    Reach st ∧ st.stale = 0 ∧ ∀ k, (st.sub k).pending = none := by
-  induction h with
-  | init => exact ⟨Reach.init, rfl, fun _ => rfl⟩
-  | next a hr e ih =>
-    obtain ⟨r, s0, pn⟩ := ih
-    cases a with
-    | pick k l =>
-      simp only [stepP] at e
-      obtain ⟨st1, e1, e2, e3, e4⟩ := visit_steps e
-      have r1 := Reach.next _ r e1
-      refine ⟨?_, ?_, ?_⟩
-      · rcases e2 with rfl | ⟨e2, _⟩
-        · exact r1
-        · exact Reach.next _ r1 e2
-      · rcases e2 with rfl | ⟨_, e2⟩
-        · obtain ⟨_, _, _, _, rfl⟩ := pick_inv e1; exact s0
-        · rw [e2]; exact s0
-      · intro k'
-        by_cases hk : k' = k
-        · subst hk; exact e3
-        · rw [e4 k' hk]; exact pn k'
-    | call k => simp [stepP] at e
-    | publish s =>
-      have e' : step _ (.publish s) = some _ := e
-      obtain ⟨a1, a2⟩ := step_other_pending e' (by intros; simp) (by intros; simp) pn
-      exact ⟨Reach.next _ r e', a2 ▸ s0, a1⟩
-    | dispatch =>
-      have e' : step _ .dispatch = some _ := e
-      obtain ⟨a1, a2⟩ := step_other_pending e' (by intros; simp) (by intros; simp) pn
-      exact ⟨Reach.next _ r e', a2 ▸ s0, a1⟩
-    | send =>
-      have e' : step _ .send = some _ := e
-      obtain ⟨a1, a2⟩ := step_other_pending e' (by intros; simp) (by intros; simp) pn
-      exact ⟨Reach.next _ r e', a2 ▸ s0, a1⟩
-    | take k =>
-      have e' : step _ (.take k) = some _ := e
-      obtain ⟨a1, a2⟩ := step_other_pending e' (by intros; simp) (by intros; simp) pn
-      exact ⟨Reach.next _ r e', a2 ▸ s0, a1⟩
-    | snap k =>
-      have e' : step _ (.snap k) = some _ := e
-      obtain ⟨a1, a2⟩ := step_other_pending e' (by intros; simp) (by intros; simp) pn
-      exact ⟨Reach.next _ r e', a2 ▸ s0, a1⟩
-    | finish k =>
-      have e' : step _ (.finish k) = some _ := e
-      obtain ⟨a1, a2⟩ := step_other_pending e' (by intros; simp) (by intros; simp) pn
-      exact ⟨Reach.next _ r e', a2 ▸ s0, a1⟩
-    | exit k =>
-      have e' : step _ (.exit k) = some _ := e
-      obtain ⟨a1, a2⟩ := step_other_pending e' (by intros; simp) (by intros; simp) pn
-      exact ⟨Reach.next _ r e', a2 ▸ s0, a1⟩
-    | register l s =>
-      have e' : step _ (.register l s) = some _ := e
-      obtain ⟨a1, a2⟩ := step_other_pending e' (by intros; simp) (by intros; simp) pn
-      exact ⟨Reach.next _ r e', a2 ▸ s0, a1⟩
-    | unregister l s =>
-      have e' : step _ (.unregister l s) = some _ := e
-      obtain ⟨a1, a2⟩ := step_other_pending e' (by intros; simp) (by intros; simp) pn
-      exact ⟨Reach.next _ r e', a2 ▸ s0, a1⟩
-
+  exact ⟨i.wf.prim p, i.tm.prim p, i.ix.prim i.wf p, i.wo.prim i.ix p, i.nd.prim i.ix i.wo p,
+    i.od.prim i.wf i.ix i.wo p, i.rg.prim i.wf i.tm i.ix p, i.cv.prim i.wf i.tm i.ix p⟩
 
 end SigModel.Bus
